@@ -440,8 +440,34 @@ func sNot(x string) string {
 	if x == "false" {
 		return "true"
 	}
+	if strings.HasPrefix(x, "(not ") && strings.HasSuffix(x, ")") && balanced(x[5:len(x)-1]) {
+		return x[5 : len(x)-1]
+	}
 	return "(not " + x + ")"
 }
+// balanced: s is one complete s-expression or atom
+func balanced(s string) bool {
+	if s == "" {
+		return false
+	}
+	if s[0] != '(' {
+		return !strings.ContainsAny(s, " ()")
+	}
+	depth := 0
+	for i, ch := range s {
+		if ch == '(' {
+			depth++
+		}
+		if ch == ')' {
+			depth--
+			if depth == 0 && i != len(s)-1 {
+				return false
+			}
+		}
+	}
+	return depth == 0
+}
+
 func sImp(a, b string) string  { return "(=> " + a + " " + b + ")" }
 func sEq(a, b string) string   { return "(= " + a + " " + b + ")" }
 func sSel(a, i string) string  { return "(select " + a + " " + i + ")" }
